@@ -166,6 +166,60 @@ def jsFrags (fs : List LTy) (isOut : Bool) : Option (List String) :=
     some ((if isOut then [] else into ++ write) ++ read)
   | _, _ => none
 
+/-! ### the flattened argument list of `_intoFFI` (legacy ABI) -/
+
+/-- one element of the flattened argument list: a scalar leaf of a given byte width, a padding zero of a given
+    width, one `align`-wide chunk of an option's payload, the option's `is_ok` flag -/
+inductive Slot where
+  | leaf (w : Nat) | pad (w : Nat) | chunk (w : Nat) | flag
+  deriving Repr, DecidableEq
+
+def Slot.width : Slot → Nat
+  | .leaf w => w | .pad w => w | .chunk w => w | .flag => 1
+
+def Slot.show : Slot → String
+  | .leaf w => "l" ++ toString w | .pad w => "p" ++ toString w | .chunk w => "c" ++ toString w | .flag => "f1"
+
+/-- what a child struct's `_intoFFI` receives as `forcePadding` -/
+def childForce (f : Force) (parent : Bool) : Bool :=
+  match f with
+  | .noForce => false | .force => true | .passThrough => parent
+
+/-- padding slots emitted after a field: unconditional, except in a two-scalar struct where the caller decides -/
+def padSlots (fl : FieldLayout) (whole : SC) (force : Bool) : List Slot :=
+  if fl.paddingCount = 0 then []
+  else if whole = .scalars 2 then (if force then List.replicate fl.paddingCount (.pad fl.paddingWidth) else [])
+  else List.replicate fl.paddingCount (.pad fl.paddingWidth)
+
+mutual
+/-- the spread of one field: `this.#f`, `...slice.splat()`, `...child._intoFFI(arena, {}, force?)`,
+    `...optionToArgsForCalling(value, size, align, …)` -/
+def tySlots : LTy → SC → SC → Bool → Option (List Slot)
+  | .scalar s _, _, _, _ => some [.leaf s]
+  | .slice, _, _, _ => some [.leaf 4, .leaf 4]
+  | .struct gs, fsc, whole, force =>
+    match structFieldInfo gs, layoutList gs with
+    | some info, some ls => fieldsSlots gs info.fields ls info.sc (childForce (forcePadding fsc whole true) force)
+    | _, _ => none
+  | .opt t, _, _, _ =>
+    match layoutOf t with
+    | some (sz, al, _) => some (List.replicate (sz / al) (.chunk al) ++ [.flag] ++ List.replicate (al - 1) (.pad 1))
+    | none => none
+def fieldsSlots : List LTy → List FieldLayout → List (Nat × Nat × SC) → SC → Bool → Option (List Slot)
+  | [], _, _, _, _ => some []
+  | t :: ts, fl :: fls, l :: ls, whole, force =>
+    match tySlots t l.2.2 whole force, fieldsSlots ts fls ls whole force with
+    | some own, some rest => some (own ++ padSlots fl whole force ++ rest)
+    | _, _ => none
+  | _ :: _, _, _, _, _ => none
+end
+
+/-- `Struct._intoFFI(arena, {}, forcePadding)` of a struct with fields `fs` -/
+def argSlots (fs : List LTy) (force : Bool) : Option (List Slot) :=
+  match structFieldInfo fs, layoutList fs with
+  | some info, some ls => fieldsSlots fs info.fields ls info.sc force
+  | _, _ => none
+
 /-! ### driver -/
 
 partial def parseLTy : Sexp → Option LTy
@@ -188,6 +242,13 @@ def runLine (line : String) : String :=
       | none => "panic"
       | some i => s!"size={i.size} align={i.align} sc={showSC i.sc} fields=" ++
           ",".intercalate (i.fields.map fun f => s!"{f.offset}:{f.paddingCount}:{f.paddingWidth}:{showSC f.sc}")
+    | none => "bad-case"
+  | some (.list (.atom "jsargs" :: fs)) =>
+    match optMapM parseLTy fs with
+    | some fs =>
+      match argSlots fs false with
+      | none => "panic"
+      | some l => " ".intercalate (l.map Slot.show)
     | none => "bad-case"
   | some (.list (.atom "jsfrags" :: .atom out :: fs)) =>
     match optMapM parseLTy fs with
